@@ -548,10 +548,13 @@ def model_expr(name: str, p, m, conv: Conv, info, before: str, base: int) -> str
         for i, (f, fg) in enumerate(info["fgraphs"]):
             if "" in f.opset_imports:
                 ops.append(f"GFunc {i}%nat")
-        return f"(dce {schema_table(m)} {clist(str(x) for x in sorted(set(unnamed)))} {clist(ops)} {FUEL} {before})"
+        args = f"{schema_table(m)} {clist(str(x) for x in sorted(set(unnamed)))} {clist(ops)} {FUEL}"
+        info["cond"] = f"extra_okb [] (PDce {args}) {before}"
+        return f"(dce {args} {before})"
     if name == "ident":
         return f"(identity_elim {FUEL} {before})"
     if name in ("cse", "cse100"):
+        info["cond"] = f"extra_okb [] (PCse {cZ(p.size_limit)} {base}) {before}"
         return f"(fst (cse {cZ(p.size_limit)} {before} {base}))"
     if name in ("dedup", "dedup8", "deduph"):
         order = [gref(g) for g in m.graphs()]
@@ -571,10 +574,12 @@ def model_expr(name: str, p, m, conv: Conv, info, before: str, base: int) -> str
                         return None
                     dt, shape, data = pay
                     other.append(f"({conv.vid(n.outputs[0])}, mkTensor {cZ(dt)} {clist(cZ(x) for x in shape)} {clist(cZ(x) for x in data)})")
+        info["cond"] = (f"extra_okb [] (PLift {FUEL} {'true' if p.lift_all_constants else 'false'} {cZ(p.size_limit)} {base}) {before}")
         return (f"(fst (lift_constants {FUEL} {'true' if p.lift_all_constants else 'false'} {cZ(p.size_limit)} "
                 f"{clist(other)} {before} {base}))")
     if name == "liftsub":
         order = [gref(g) for g in m.graphs()]
+        info["cond"] = f"extra_okb [] (PLiftSub {clist(order)}) {before}"
         return f"(lift_subgraph_inits {clist(order)} {before})"
     if name == "rminit":
         return f"(remove_inits_from_inputs {clist(gref(g) for g in m.graphs())} {before})"
@@ -584,25 +589,34 @@ def model_expr(name: str, p, m, conv: Conv, info, before: str, base: int) -> str
         scopes = [clist([gref(m.graph)] + [gref(g) for g in m.graph.subgraphs()])]
         for f, fg in info["fgraphs"]:
             scopes.append(clist([gref(fg)] + [gref(g) for g in f.subgraphs()]))
+        info["cond"] = f"extra_okb [] (POutFix {clist(scopes)} {base}) {before}"
         return f"(fst (output_fix {clist(scopes)} {before} {base}))"
     if name == "rmfunc":
         return f"(remove_unused_funcs_checked {FUEL} {before})"
     if name == "inline":
         return f"(inline_pass_c {FUEL} {before} {base} {conv.next_g})"
     if name == "defattr":
-        return f"(add_default_attrs {defaults_table(m, conv)} {FUEL} {before})"
+        tbl = defaults_table(m, conv)
+        info["cond"] = f"extra_okb {tbl} (PDefAttr {FUEL}) {before}"
+        return f"(add_default_attrs {tbl} {FUEL} {before})"
     return None
 
 
 CASE_HEADER = """From Coq Require Import ZArith NArith List Bool.
-From IRV Require Import Base.Exn Gen.C05Gen C05.Model C05.Inline C05.InlineCert C05.InlinePass.
+From IRV Require Import Base.Exn Gen.C05Gen C05.Model C05.Inline C05.InlineCert C05.InlinePass C05.Opsets C05.Proofs12 C05.Proofs19.
 Import ListNotations.
 Open Scope N_scope.
 """
 
 
 class Step:
-    __slots__ = ("pass_name", "before", "after", "expr", "base", "kind", "case", "idx")
+    __slots__ = ("pass_name", "before", "after", "expr", "base", "kind", "case", "idx", "ops_before", "ops_after", "process_functions", "cond")
+
+
+def opset_tables(m) -> str:
+    """`imports fimports` of Opsets.mkO: the model's opset-import table and one table per function (order of m.functions)."""
+    tab = lambda d: clist(f"({cstr(k)}, {cZ(int(v))})" for k, v in d.items())  # noqa: E731
+    return tab(m.opset_imports) + " " + clist(tab(f.opset_imports) for f in m.functions.values())
 
 
 def run_case(spec: dict, passes: list[str], conv_steps: bool = True):
@@ -647,10 +661,15 @@ def run_case(spec: dict, passes: list[str], conv_steps: bool = True):
             st.pass_name = name
             st.before, info = conv.model(m)
             st.base = conv.next_v
+            st.ops_before = opset_tables(m) if name == "rmopset" else None
+            st.process_functions = bool(getattr(p, "process_functions", True))
             try:
+                info.pop("cond", None)
                 st.expr = model_expr(name, p, m, conv, info, "BEFORE", st.base) if name in MODELLED else None
             except Exception:  # noqa: BLE001
                 st.expr = None
+            # the pass's own side condition in C05_sequence (Proofs12.extra), as the executable Proofs19.extra_okb
+            st.cond = info.get("cond") if st.expr else None
             st.kind = ("model" if name in MODELLED and st.expr else "frame" if name in FRAME else
                        "reorder" if name in RELATIONAL else "none")
         try:
@@ -661,6 +680,7 @@ def run_case(spec: dict, passes: list[str], conv_steps: bool = True):
             break
         if st is not None:
             st.after, _ = conv.model(m)
+            st.ops_after = opset_tables(m) if name == "rmopset" else None
             steps.append(st)
         try:
             protos.append(ir.serde.serialize_model(m))
@@ -672,14 +692,21 @@ def run_case(spec: dict, passes: list[str], conv_steps: bool = True):
 
 def steps_to_coq(steps: list[Step]) -> str:
     out = [CASE_HEADER]
-    flags, valids = [], []
+    flags, valids, conds = [], [], []
     for k, st in enumerate(steps):
         out.append(f"Definition b{k} : model := {st.before}.\nDefinition a{k} : model := {st.after}.\n")
         valids.append(f"wfb b{k} && outputs_localb b{k} && noopfuncb b{k}")
+        c = getattr(st, "cond", None)
+        conds.append(c.replace("BEFORE", f"b{k}") if c else "true")
         if st.kind == "model" and st.pass_name == "inline":
             flags.append(f"model_agree_deep 12 {st.base} {st.expr.replace('BEFORE', f'b{k}')} a{k}")
         elif st.kind == "model":
             flags.append(f"model_agree {st.base} {st.expr.replace('BEFORE', f'b{k}')} a{k}")
+        elif st.kind == "frame" and st.pass_name == "rmopset" and getattr(st, "ops_before", None) and getattr(st, "ops_after", None):
+            # the term is unchanged AND the opset tables are the ones the model of the pass (Opsets.v) computes
+            pf = "true" if st.process_functions else "false"
+            flags.append(f"model_agree {st.base} b{k} a{k} && opsets_agree (remove_unused_opsets {FUEL} {pf} (mkO b{k} {st.ops_before})) "
+                         f"(mkO a{k} {st.ops_after})")
         elif st.kind == "frame":
             flags.append(f"model_agree {st.base} b{k} a{k}")
         elif st.kind == "reorder":
@@ -690,6 +717,8 @@ def steps_to_coq(steps: list[Step]) -> str:
     out.append("Definition agrees : list bool := " + clist(flags) + ".\n")
     out.append("Eval vm_compute in (failing (fun b => b) agrees).\n")
     out.append("Eval vm_compute in (failing (fun b => b) valids).\n")
+    out.append("Definition conds : list bool := " + clist(conds) + ".\n")
+    out.append("Eval vm_compute in (failing (fun b => b) conds).\n")
     return "".join(out)
 
 
@@ -1166,15 +1195,21 @@ def coq_steps(ck, steps: list[Step], tag: str) -> tuple[list[int], list[int]]:
         if rc != 0:
             raise RuntimeError(f"case file {tag}_{i} did not compile / ran out of resources:\n{out[-1500:]}")
         lists = re.findall(r"=\s*(\[[^\]]*\]|nil)", out)
-        if len(lists) != 2:
+        if len(lists) != 3:
             raise RuntimeError("unexpected coq output:\n" + out[-1500:])
         pr = lambda b: [] if b == "nil" else [int(x) for x in re.findall(r"\d+", b)]  # noqa: E731
-        return [i * 40 + k for k in pr(lists[0])], [i * 40 + k for k in pr(lists[1])]
-    dis, inv = [], []
+        return [i * 40 + k for k in pr(lists[0])], [i * 40 + k for k in pr(lists[1])], [i * 40 + k for k in pr(lists[2])]
+    dis, inv, nocond = [], [], []
     with cf.ThreadPoolExecutor(max_workers=4) as ex:
-        for a, b in ex.map(one, enumerate(chunks)):
+        for a, b, c in ex.map(one, enumerate(chunks)):
             dis += a
             inv += b
+            nocond += c
+    # steps of modelled passes whose side condition (hypothesis of C05_sequence) is decided in Coq on this very input
+    inv_set = set(inv)
+    for i, st in enumerate(steps):
+        if getattr(st, "cond", None) and i not in inv_set:
+            ck.hist("side_conditions", ("holds:" if i not in set(nocond) else "OUTSIDE-HYPOTHESIS:") + st.pass_name)
     return dis, inv
 
 
@@ -1335,6 +1370,23 @@ def targeted_cases(rng, n: int):
         cases.append(({"opset": 18, "inputs": [["x0", "F2"], ["c0", "B"], ["wi", "F2"]], "inits": [["wi", "F2", [0.5, 0.25], True]],
                        "functions": [], "nodes": fnodes, "outputs": [["y", "F2"], ["acc0", "F2"]]},
                       rng.choice([["rminit"], ["rminit", "dce"], ["addinit", "rminit"], ["rminit", "rminit"], ["rminit", "dedup"]]),
+                      rng.randrange(1 << 30)))
+        # (g) a custom domain used ONLY inside a nested graph (main graph / function body), next to imports nothing uses
+        fa = {"name": "Fa", "dom": "local", "ins": ["a"], "outs": ["r"], "attrs": [], "defaults": {}, "nodes": [N(un, ["a"], ["r"])],
+              "opsets": [["", 18], ["local", 1]] + rng.choice([[], [["com.unused", 2]]])}
+        gth = {"name": "gth", "inputs": [], "inits": [], "nodes": [N("Fa", ["x0"], ["go"], dom="local")], "outputs": [["go", "F2"]]}
+        gel = {"name": "gel", "inputs": [], "inits": [], "nodes": [N("Identity", ["x0"], ["ge"])], "outputs": [["ge", "F2"]]}
+        fw = {"name": "Fw", "dom": "local", "ins": ["b", "c"], "outs": ["o"], "attrs": [], "defaults": {},
+              "nodes": [N("If", ["c"], ["o"], then_branch=["g", {"name": "wt", "inputs": [], "inits": [], "nodes": [N("Fa", ["b"], ["wo"], dom="local")],
+                                                                  "outputs": [["wo", "F2"]]}],
+                          else_branch=["g", {"name": "we", "inputs": [], "inits": [], "nodes": [N("Neg", ["b"], ["wn"])], "outputs": [["wn", "F2"]]}])]}
+        if rng.random() < 0.5:
+            gnodes, gfns = [N("If", ["c0"], ["y"], then_branch=["g", gth], else_branch=["g", gel])], [fa]
+        else:
+            gnodes, gfns = [N("Fw", ["x0", "c0"], ["y"], dom="local")], [fa, fw]
+        cases.append(({"opset": 18, "inputs": [["x0", "F2"], ["c0", "B"]], "inits": [], "functions": gfns, "nodes": gnodes,
+                       "outputs": [["y", "F2"]], "extra_opsets": rng.choice([[], [["com.unused", 2]], [["ai.onnx.ml", 3], ["com.unused", 2]]])},
+                      rng.choice([["rmopset"], ["rmopset", "inline"], ["inline", "rmopset"], ["rmfunc", "rmopset"], ["rmopset", "rmopset"]]),
                       rng.randrange(1 << 30)))
     return cases
 
